@@ -174,14 +174,38 @@ DECLARE uhash AGGREGATE (cur, @m DEFAULT 1) AS BEGIN
   END WHILE;
   RETURN @a;
 END;
+DECLARE utag AGGREGATE (cur, @m DEFAULT 'd') AS BEGIN
+  VAR @a := 0; VAR @x;
+  WHILE @x IN cur DO
+    IF @x IS NULL THEN @a := @a + 1000; CONTINUE; END IF;
+    @a := @a + @x;
+  END WHILE;
+  RETURN @a || '/' || @m;
+END;
 `
+
+// second argument of utag: texts that differ from row to row only in letter case, edge blanks or the spelling of a
+// number - equal under csvq's comparison, different as values; the result shows the text the invocation received
+const tagExpr = "CASE id % 3 WHEN 0 THEN 'k' WHEN 1 THEN 'K' ELSE ' k ' END"
+const numTagExpr = "CASE id % 3 WHEN 0 THEN '1' WHEN 1 THEN '01' ELSE '1.0' END"
+
+func tagOf(id int64, kind string) string {
+	m := id % 3
+	if m < 0 {
+		m += 3
+	}
+	if kind == "numtag" {
+		return []string{"1", "01", "1.0"}[m]
+	}
+	return []string{"k", "K", " k "}[m]
+}
 
 var (
 	rankFns     = []string{"RANK", "DENSE_RANK", "CUME_DIST", "PERCENT_RANK"}
 	numberFns   = []string{"ROW_NUMBER", "NTILE"}
 	valueFns    = []string{"FIRST_VALUE", "LAST_VALUE", "NTH_VALUE"}
 	lagFns      = []string{"LAG", "LEAD"}
-	aggFns      = []string{"COUNT", "SUM", "AVG", "MIN", "MAX", "MEDIAN", "USUM", "UHASH", "STDEV", "STDEVP", "VAR", "VARP"}
+	aggFns      = []string{"COUNT", "SUM", "AVG", "MIN", "MAX", "MEDIAN", "USUM", "UHASH", "UTAG", "STDEV", "STDEVP", "VAR", "VARP"}
 	listFns     = []string{"LISTAGG", "JSON_AGG"}
 	strAlphabet = []string{"a", "b", "ab", "ba", "c", "x", "xa"}
 )
@@ -229,6 +253,18 @@ func isIn(s string, xs []string) bool {
 var allFnNames = []string{"RANK", "DENSE_RANK", "CUME_DIST", "PERCENT_RANK", "ROW_NUMBER", "NTILE", "FIRST_VALUE", "LAST_VALUE", "NTH_VALUE",
 	"LAG", "LEAD", "COUNT", "SUM", "AVG", "MIN", "MAX", "MEDIAN", "USUM", "UHASH", "LISTAGG", "JSON_AGG", "COUNT_STAR", "STDEV", "STDEVP", "VAR", "VARP"}
 
+// aggFnsNumeric: the aggregates whose result is a number (utag returns text; only the direct check draws it:
+// the other sub-checks wrap the call in arithmetic or feed it to numeric functions)
+func aggFnsNumeric() []string {
+	var fs []string
+	for _, f := range aggFns {
+		if f != "UTAG" {
+			fs = append(fs, f)
+		}
+	}
+	return fs
+}
+
 func allFns() []string {
 	var fs []string
 	fs = append(fs, rankFns...)
@@ -237,7 +273,7 @@ func allFns() []string {
 	for i := 0; i < 2; i++ {
 		fs = append(fs, valueFns...)
 		fs = append(fs, lagFns...)
-		fs = append(fs, aggFns...)
+		fs = append(fs, aggFnsNumeric()...)
 	}
 	fs = append(fs, listFns...)
 	if !avoidKnownCountStarOver {
@@ -451,7 +487,7 @@ func genCase(t *rapid.T) anaCase {
 	}
 	large := mode == "large"
 	strict := chance(t, "strictEqual", 10)
-	c := genCall(t, large, genRowsMode(t, mode, strict), allFns())
+	c := genCall(t, large, genRowsMode(t, mode, strict), append(allFns(), "UTAG", "UTAG"))
 	c.Strict = strict
 	c.CPU = genCPU(t, large)
 	if mode == "medium" {
@@ -530,6 +566,9 @@ func genCall(t *rapid.T, large bool, rows [][]val.Val, fns []string) anaCase {
 	}
 	if c.Fn == "USUM" || c.Fn == "UHASH" {
 		c.Arg2 = pick(t, "arg2", []string{"", "2", "id"})
+	}
+	if c.Fn == "UTAG" {
+		c.Arg2 = pick(t, "arg2tag", []string{"", "'t'", "tag", "tag", "numtag", "id"})
 	}
 	if c.Fn == "LISTAGG" {
 		if c.HasSep = chance(t, "hasSep", 60); c.HasSep {
@@ -693,6 +732,10 @@ func buildInput(c anaCase) ref.AnaInput {
 			in.Arg2[i] = val.Int(2)
 		case "id":
 			in.Arg2[i] = r[cID]
+		case "'t'":
+			in.Arg2[i] = val.Str("t")
+		case "tag", "numtag":
+			in.Arg2[i] = val.Str(tagOf(r[cID].AsInt(), c.Arg2))
 		}
 	}
 	return in
@@ -734,9 +777,15 @@ func fnSQL(c anaCase) string {
 			b.WriteString(", " + val.QuoteSQL(c.Sep))
 		}
 		b.WriteString(")")
-	case "USUM", "UHASH":
+	case "USUM", "UHASH", "UTAG":
 		b.WriteString(strings.ToLower(c.Fn) + "(" + dist + c.Arg)
-		if c.Arg2 != "" {
+		switch c.Arg2 {
+		case "":
+		case "tag":
+			b.WriteString(", " + tagExpr)
+		case "numtag":
+			b.WriteString(", " + numTagExpr)
+		default:
 			b.WriteString(", " + c.Arg2)
 		}
 		b.WriteString(")")
@@ -918,7 +967,7 @@ func bigKeyClasses(rows [][]val.Val, c anaCase) []string {
 // callInDomain: the call's clauses are inside the reference model's domain
 // (columns exist, order-dependent functions have a unique order, ...).
 func callInDomain(c anaCase) bool {
-	if !isIn(c.Fn, allFnNames) {
+	if !isIn(c.Fn, allFnNames) && c.Fn != "UTAG" {
 		return false
 	}
 	for _, p := range c.Partition {
@@ -1112,7 +1161,7 @@ func TestC17Analytic(t *testing.T) {
 	fw.Run(t, fw.Spec[anaCase]{
 		ID: "C17", Name: "analytic", Quick: 24000, Thorough: 480000,
 		Gen: genCase, Check: checkCase,
-		Rule: "temporary table (unique id, partition columns with few values + NULL + single-row partitions, order columns with ties and NULLs, integer and string value columns with NULLs; 15% of tables have 160-230 rows with 2-4 partition values and run with --cpu 2-4; 12% have 16-120 rows with up to 42 partition values and run with --cpu 2-8, so that the partitions are divided among workers that each handle several of them although per-record work is not split below 160 rows; 10% of the sessions run with SET @@STRICT_EQUAL TO TRUE over tables whose key cells are canonical - small integers and lowercase words - so that the flag must not change any result) x one analytic call (ROW_NUMBER, RANK, DENSE_RANK, CUME_DIST, PERCENT_RANK, NTILE, FIRST/LAST/NTH_VALUE [IGNORE NULLS], LAG/LEAD [offset, default, IGNORE NULLS], COUNT/SUM/AVG/MIN/MAX/MEDIAN/STDEV/STDEVP/VAR/VARP [DISTINCT], LISTAGG / JSON_AGG [DISTINCT], two user-defined aggregates) OVER (PARTITION BY 0-2, ORDER BY 0-2 [+id], ROWS frames of the documented grammar); the result column is compared by id with a reference evaluator written from the manual, the other columns and the row count must be unchanged; non-trivial = at least two partitions with two or more rows and (ties under the user ORDER BY items or a bounded frame); distinct by (function, #partition items, #order items, id key, frame shape, ties, IGNORE NULLS, DISTINCT, strict-equal)",
+		Rule: "temporary table (unique id, partition columns with few values + NULL + single-row partitions, order columns with ties and NULLs, integer and string value columns with NULLs; 15% of tables have 160-230 rows with 2-4 partition values and run with --cpu 2-4; 12% have 16-120 rows with up to 42 partition values and run with --cpu 2-8, so that the partitions are divided among workers that each handle several of them although per-record work is not split below 160 rows; 10% of the sessions run with SET @@STRICT_EQUAL TO TRUE over tables whose key cells are canonical - small integers and lowercase words - so that the flag must not change any result) x one analytic call (ROW_NUMBER, RANK, DENSE_RANK, CUME_DIST, PERCENT_RANK, NTILE, FIRST/LAST/NTH_VALUE [IGNORE NULLS], LAG/LEAD [offset, default, IGNORE NULLS], COUNT/SUM/AVG/MIN/MAX/MEDIAN/STDEV/STDEVP/VAR/VARP [DISTINCT], LISTAGG / JSON_AGG [DISTINCT], two user-defined aggregates) OVER (PARTITION BY 0-2, ORDER BY 0-2 [+id], ROWS frames of the documented grammar); the result column is compared by id with a reference evaluator written from the manual, the other columns and the row count must be unchanged; non-trivial = at least two partitions with two or more rows and (ties under the user ORDER BY items or a bounded frame); distinct by (function, #partition items, #order items, id key, frame shape, ties, IGNORE NULLS, DISTINCT, strict-equal); round 7: the user-defined aggregate utag(x, @m) returns the sum followed by the text of its second argument, which is a constant, id, or a text that differs from row to row only in letter case / edge blanks ('k', 'K', ' k ') or in the spelling of a number ('1', '01', '1.0') - equal under csvq's comparison, different as values: each invocation must receive its own row's argument",
 		Assumptions: []string{
 			"@@STRICT_EQUAL (manual: compare strictly that two values are equal for DISTINCT, GROUP BY and ORDER BY) is only set where every pair of equal key or argument cells is a pair of identical cells; what the flag does to cells that are equal but not identical (1 and '1', 'a' and 'A') is not part of this check",
 			"partition and order key values are small integers, lowercase non-numeric strings and NULL; an order column holds one type",
